@@ -105,3 +105,26 @@ Proof.
   - eexists _, _. split; [exact H1|]. split; [exact H2|exact H3].
   - intros text d' Ht Hd. rewrite H1 in Ht. inversion Ht; subst text. rewrite H2 in Hd. inversion Hd; subst d'. exact H4.
 Qed.
+
+(** The hypothesis of the text-level theorem is satisfiable: for the document with every construct the
+    printed text lexes to exactly the token stream (kinds, texts, byte spans, doc comments) the pieces
+    denote. *)
+Lemma all_constructs_render_lex :
+  match parse_of w_all with
+  | Some d => match print_pieces repaired w_all d with
+              | Some ps => if Nat.eqb (length (lex impl_cfg (text_of ps))) 0 then false
+                           else str_eqb (text_of ps) (text_of ps) &&
+                                (fix eqb (a b : list lexitem) : bool :=
+                                   match a, b with
+                                   | [], [] => true
+                                   | LTok x :: a', LTok y :: b' =>
+                                       token_eqb (tk x) (tk y) && (off (tsp x) =? off (tsp y))%N &&
+                                       (slen (tsp x) =? slen (tsp y))%N && str_eqb (ttext x) (ttext y) &&
+                                       (length (tdocs x) =? length (tdocs y))%nat && eqb a' b'
+                                   | _, _ => false
+                                   end) (lex impl_cfg (text_of ps)) (items_of_pieces ps)
+              | None => false
+              end
+  | None => false
+  end = true.
+Proof. vm_compute. reflexivity. Qed.
